@@ -57,3 +57,8 @@ pub fn lookup(id: &str) -> Option<PropDef> {
         _ => return None,
     })
 }
+
+/// short printable operands of a C13-style operation (for messages)
+pub(crate) fn c13_operands_short(op: &c13::Op, pool: &[common::D]) -> Vec<String> {
+    c13::operands(op).iter().map(|i| crate::conv::short(&pool[*i])).collect()
+}
